@@ -134,10 +134,92 @@ def conservation(res, classes, rng, tier):
                 res["violations"].append({"kind": "energy-drift", "integrator": name, "opts": opts, "system": kind, "first_half": half["a"], "second_half": half["b"]})
 
 
+PROBE_CFGS = CFGS + [("whfast", {"kernel": "modifiedkick"}), ("whfast", {"kernel": "composition"}), ("whfast", {"kernel": "lazy"}),
+                     ("saba", {"type": "cm2"}), ("saba", {"type": "cm4", "safe_mode": 0}), ("saba", {"type": "10,6,4"}), ("saba", {"type": "h8,6,4"})] + \
+    [("eos", {"phi0": a, "phi1": b, "safe_mode": sm}) for a, b, sm in (("pmlf4", "lf", 1), ("pmlf6", "lf", 1), ("lf", "pmlf4", 1), ("lf4", "pmlf6", 0), ("pmlf4", "pmlf4", 0),
+                                                                        ("plf7_6_4", "lf8", 1), ("lf8_6_4", "lf4_2", 0))]
+
+
+def momentum_probe(res, rng):
+    """Newton's third law inside every sub-step: a heavy, very unequal system stepped a few times with a large step; total
+    momentum and the uniform motion of the centre of mass must hold to rounding whatever the scheme's accuracy is"""
+    worst = {}
+    for name, opts in PROBE_CFGS:
+        sim = rebound.Simulation()
+        sim.add(m=1.0)
+        sim.add(m=5e-2, a=1.0, e=0.1, inc=0.2, f=rng.uniform(0, 6))
+        sim.add(m=8e-3, a=1.9, e=0.2, inc=0.1, Omega=1.0, f=rng.uniform(0, 6))
+        sim.add(m=1e-3, a=3.3, e=0.05, inc=0.3, Omega=2.0, f=rng.uniform(0, 6))
+        for p in sim.particles:
+            p.vx += 0.11
+            p.vy -= 0.05
+        sim.integrator = name
+        ri = getattr(sim, "ri_" + name, None)
+        for k, v in opts.items():
+            setattr(ri, k, v)
+        sim.dt = 0.11
+        M = sum(p.m for p in sim.particles)
+        P0 = [sum(p.m * getattr(p, c) for p in sim.particles) for c in ("vx", "vy", "vz")]
+        c0 = sim.com()
+        scale = sum(p.m * math.sqrt(p.vx ** 2 + p.vy ** 2 + p.vz ** 2) for p in sim.particles)
+        try:
+            sim.steps(25)
+            sim.synchronize()
+        except Exception as e:  # noqa: BLE001
+            res["violations"].append({"kind": "run-failed", "integrator": name, "opts": opts, "system": "heavy", "error": str(e)[:100]})
+            continue
+        P = [sum(p.m * getattr(p, c) for p in sim.particles) for c in ("vx", "vy", "vz")]
+        c = sim.com()
+        dP = max(abs(a - b) for a, b in zip(P, P0)) / scale
+        dC = max(abs(getattr(c, q) - (getattr(c0, q) + P0[k] / M * sim.t)) for k, q in enumerate("xyz"))
+        res["probes"] = res.get("probes", 0) + 1
+        worst["%s %s" % (name, opts)] = (dP, dC)
+        lim = {"bs": 1e-12, "janus": 1e-12}.get(name, 1e-13)        # (JANUS rounds to its integer grid every sub-step)
+        if not (dP <= lim and dC <= 50 * lim):
+            res["violations"].append({"kind": "momentum-probe", "integrator": name, "opts": opts, "system": "heavy", "P": dP, "C": dC, "class": lim})
+    res["probe_worst"] = {k: [float("%.2g" % v[0]), float("%.2g" % v[1])] for k, v in worst.items()}
+
+
+ENC_PLANETS = {"big": dict(m=2e-3, a=6.0, e=0.02, inc=0.03, f=2.0), "p1": dict(m=3e-4, a=1.0, e=0.05, inc=0.01, f=0.0),
+               "p2": dict(m=1e-4, a=1.09, e=0.05, inc=0.02, omega=1.0, f=-1.3)}
+
+
+def encounter_energy(res, tier):
+    """hybrid integrators through repeated planet-planet encounters: the energy error stays in the scheme's class whichever way the
+    particles are ordered in the array (the encountering pair at indices 2,3 with an uninvolved massive planet at index 1, or at 1,2)"""
+    out = {}
+    for name, opts in (("mercurius", {}), ("mercurius", {"safe_mode": 0}), ("trace", {}), ("trace", {"peri_mode": "PARTIAL_BS"})):
+        for order in (("big", "p1", "p2"), ("p1", "p2", "big")):
+            sim = rebound.Simulation()
+            sim.integrator = name
+            for k, v in opts.items():
+                setattr(getattr(sim, "ri_" + name), k, v)
+            sim.add(m=1.0)
+            for k in order:
+                sim.add(primary=sim.particles[0], **ENC_PLANETS[k])
+            sim.move_to_com()
+            sim.dt = 0.02 * 2.0 * math.pi
+            e0 = sim.energy()
+            emax = 0.0
+            for i in range(120 if tier == "quick" else 400):
+                sim.integrate(sim.t + math.pi, exact_finish_time=0)
+                emax = max(emax, abs((sim.energy() - e0) / e0))
+            res["runs"] += 1
+            out["%s %s order %s" % (name, opts, "/".join(order))] = float("%.2g" % emax)
+            if not emax <= ENC_CLASS:
+                res["violations"].append({"kind": "encounter-energy", "integrator": name, "opts": opts, "system": "encounter, array order " + "/".join(order), "E": emax, "class": ENC_CLASS})
+    res["encounter_energy"] = out
+
+
+ENC_CLASS = 1e-4
+
+
 def main():
     table, out, seed, tier = sys.argv[1], sys.argv[2], int(sys.argv[3]), sys.argv[4]
     rng = random.Random(seed)
     res = {"lattice": 0, "runs": 0, "violations": [], "observed": {}}
+    momentum_probe(res, random.Random(seed + 3))
+    encounter_energy(res, tier)
     rows, classes = [], None
     for ln in open(table):
         r = json.loads(ln)
